@@ -269,6 +269,24 @@ func (x *Exec) load(st *State, a *Addr, ob string) Val {
 			ct = si.Fields[p].Type
 		}
 		return cur
+	case a.SI != nil && a.SI.Sum != "":
+		// field of an immutable node value: selectors
+		si := a.SI
+		if len(a.Path) == 0 {
+			return Val{S: si.Sum, T: a.Ref, GT: si.Named}
+		}
+		f := si.Fields[a.Path[0]]
+		cur := Val{S: f.Sort, T: fmt.Sprintf("(%s.%s %s)", si.Name, f.Name, a.Ref), GT: f.Type}
+		ct := f.Type
+		for _, p := range a.Path[1:] {
+			s2 := U.structInfo(ct.(*types.Named))
+			cur = Val{S: s2.Fields[p].Sort, T: fmt.Sprintf("(%s.%s %s)", s2.Name, s2.Fields[p].Name, cur.T), GT: s2.Fields[p].Type}
+			ct = s2.Fields[p].Type
+		}
+		if tk := U.typeOKEager(cur.T, cur.GT); tk != "" {
+			st.assume(tk)
+		}
+		return cur
 	default:
 		// heap object
 		si := a.SI
@@ -290,7 +308,7 @@ func (x *Exec) load(st *State, a *Addr, ob string) Val {
 			cur = Val{S: s2.Fields[p].Sort, T: fmt.Sprintf("(%s.%s %s)", s2.Name, s2.Fields[p].Name, cur.T), GT: s2.Fields[p].Type}
 			ct = s2.Fields[p].Type
 		}
-		if tk := U.typeOK(cur.T, cur.GT); tk != "" {
+		if tk := U.typeOKEager(cur.T, cur.GT); tk != "" {
 			st.assume(tk)
 		}
 		return cur
@@ -587,6 +605,10 @@ func (x *Exec) debugRef(st *State, d *ssa.DebugRef) {
 	if _, isVar := obj.(*types.Var); !isVar {
 		return
 	}
+	if cur, ok := fr.vars[obj.Name()]; ok && cur.S == "@addr" && !d.IsAddr {
+		// address-taken local: the cell is the source of truth
+		return
+	}
 	v := x.valOf(st, d.X)
 	if d.IsAddr {
 		if v.A == nil {
@@ -632,6 +654,11 @@ func (x *Exec) step(st *State, in ssa.Instruction) {
 		}
 		o := x.newObj(st, et, in)
 		set(in, Val{A: &Addr{ObjID: o.ID, T: et}})
+		switch in.Comment {
+		case "", "complit", "varargs", "new", "makeslice", "slicelit", "typeassert", "ok":
+		default:
+			fr.vars[in.Comment] = Val{GT: et, A: &Addr{ObjID: o.ID, T: et}, S: "@addr"}
+		}
 	case *ssa.FieldAddr:
 		base := x.valOf(st, in.X)
 		stT := in.X.Type().Underlying().(*types.Pointer).Elem()
@@ -835,7 +862,7 @@ func (x *Exec) unop(st *State, in *ssa.UnOp, set func(ssa.Value, Val)) {
 	case token.MUL:
 		if v.S == "@elem" {
 			r := Val{S: x.U().sortOf(v.GT), T: v.T, GT: v.GT}
-			if tk := x.U().typeOK(r.T, r.GT); tk != "" {
+			if tk := x.U().typeOKEager(r.T, r.GT); tk != "" {
 				st.assume(tk)
 			}
 			set(in, r)
@@ -956,10 +983,12 @@ func (x *Exec) slice(st *State, in *ssa.Slice, set func(ssa.Value, Val)) {
 			limitf("partial slice of local array")
 		}
 		s := U.sortOf(in.Type())
-		t := s + ".empty"
+		// a sequence literal: a fresh constant with ground facts about its length and elements
+		t := st.fresh("seqlit", s)
+		st.assume(fmt.Sprintf("(= (%s.len %s) %d)", s, t, len(o.Vals)))
 		var elems []Val
-		for _, e := range o.Vals {
-			t = fmt.Sprintf("(%s.snoc %s %s)", s, t, x.term(st, e, true))
+		for i, e := range o.Vals {
+			st.assume(fmt.Sprintf("(= (%s.nth %s %d) %s)", s, t, i, x.term(st, e, true)))
 			elems = append(elems, e)
 		}
 		set(in, Val{S: s, T: t, Elems: elems})
@@ -990,6 +1019,11 @@ func (x *Exec) typeAssert(st *State, in *ssa.TypeAssert, set func(ssa.Value, Val
 	at := in.AssertedType
 	ts := U.sortOf(at)
 	var ok string
+	if _, isIface := in.X.Type().Underlying().(*types.Interface); isIface {
+		if tk := U.typeOK(vt, in.X.Type()); tk != "" {
+			st.assume(tk)
+		}
+	}
 	switch {
 	case v.S == "Node" || v.S == "Err" || (v.A != nil && v.T == ""):
 		srcSort := v.S
